@@ -74,8 +74,17 @@ impl<'a> Ctx<'a> {
                 0 => { out.push(I::Nop); self.note("Nop"); }
                 1 if depth < self.cfg.max_depth => {
                     // a whole nested construct in dead position (allocates an orphan sequence in walrus)
-                    out.push(I::Block(we::BlockType::Empty)); labels.push(vec![]);
-                    let body = self.seq(labels, vec![], &[], depth + 1); out.extend(body); labels.pop(); out.push(I::End); self.note("Block"); self.info.blocks += 1;
+                    // a block, a loop, an else-less if or an if / else (dead structured code inside live structured code: the parser's control stack sees both)
+                    match self.r.below(4) {
+                        0 => { out.push(I::Block(we::BlockType::Empty)); labels.push(vec![]);
+                               let body = self.seq(labels, vec![], &[], depth + 1); out.extend(body); labels.pop(); out.push(I::End); self.note("Block"); }
+                        1 => { out.push(I::Loop(we::BlockType::Empty)); labels.push(vec![]);
+                               let body = self.seq(labels, vec![], &[], depth + 1); out.extend(body); labels.pop(); out.push(I::End); self.note("Loop"); }
+                        k => { out.push(I::I32Const(k as i32 - 2)); out.push(I::If(we::BlockType::Empty)); labels.push(vec![]);
+                               let body = self.seq(labels, vec![], &[], depth + 1); out.extend(body);
+                               if k == 3 { out.push(I::Else); let body = self.seq(labels, vec![], &[], depth + 1); out.extend(body); self.note("Else"); }
+                               labels.pop(); out.push(I::End); self.note("If"); } }
+                    self.info.blocks += 1;
                 }
                 2 => { let d = self.pick_label(labels); out.push(I::Br(d as u32)); self.note("Br"); }
                 _ => { let k = self.r.usize(self.tab.insts.len()); let inst = self.tab.insts[k].clone();
